@@ -5,9 +5,26 @@ From Coq Require Import List Arith Bool ZArith QArith Qabs String.
 From PA Require Import base.Arr base.Px base.QClose base.MatL model.DistrGeom gen.VmiInv model.DistrFit.
 Import ListNotations.
 
+(* Fixed-point arithmetic on rationals with the fixed denominator 2^100:
+   every value is n # 2^100; sums are exact, products and quotients are
+   rounded down to a multiple of 2^-100.  (Exact rationals are unusable here:
+   the cosines y/r with r a binary64 square root have pairwise different
+   53-bit denominators, so exact moment sums grow to tens of thousands of
+   bits.)  The rounding error is far below the comparison tolerance 2^-40;
+   integers and binary64 inputs of magnitude >= 2^-48 are represented
+   exactly.  Inputs are converted with fx. *)
+Definition fxbits : N := 100%N.
+Definition fxden : positive := Eval vm_compute in (2 ^ 100)%positive.
+Definition fx (q : Q) : Q := ((Qnum q * Zpos fxden) / Zpos (Qden q))%Z # fxden.
 Definition Qops : field_ops Q :=
-  FieldOps 0%Q 1%Q (fun x y => Qred (x + y)) (fun x y => Qred (x - y)) (fun x y => Qred (x * y))
-           (fun x y => Qred (x / y)) Qopp Qeq_bool.
+  FieldOps (0 # fxden) (Zpos fxden # fxden)
+           (fun x y => (Qnum x + Qnum y)%Z # fxden)
+           (fun x y => (Qnum x - Qnum y)%Z # fxden)
+           (fun x y => Z.shiftr (Qnum x * Qnum y) (Z.of_N fxbits) # fxden)
+           (fun x y => (if Z.eqb (Qnum y) 0 then 0 else (Qnum x * Zpos fxden) / Qnum y)%Z # fxden)
+           (fun x => (- Qnum x)%Z # fxden)
+           (fun x y => Z.eqb (Qnum x) (Qnum y)).
+Definition fximg (X : list (list Q)) : list (list Q) := map (map fx) X.
 
 (* square roots of the naturals the model needs, supplied by the harness as
    the binary64 value of numpy.sqrt and validated here by squaring:
@@ -24,7 +41,7 @@ Fixpoint sqrt_lookup (t : sqrt_tab) (n : nat) : option Q :=
   | (m, s) :: t' => if Nat.eqb m n then Some s else sqrt_lookup t' n
   end.
 Definition sqrtQ (t : sqrt_tab) (n : nat) : Q :=
-  match sqrt_lookup t n with Some s => s | None => 0 end.
+  match sqrt_lookup t n with Some s => fx s | None => fx 0 end.
 (* every r^2 of the quadrant has an entry *)
 Definition sqrt_tab_covers (t : sqrt_tab) (g : geom) : bool :=
   forallb (fun ab => match sqrt_lookup t (r2n g (fst ab) (snd ab)) with Some _ => true | None => false end)
@@ -70,14 +87,14 @@ Definition geom_matches (meth : method) (g : geom) (o : geom_obs) : bool :=
    to be known to be zero or not; sqrt is replaced by any positive value
    except that wu = 0 exactly when r^2 is a perfect square *)
 Definition sqrt_sign (n : nat) : Q :=
-  let s := Nat.sqrt n in if Nat.eqb (s * s) n then qn s else qn s + (1 # 2).
+  let s := Nat.sqrt n in fx (if Nat.eqb (s * s) n then qn s else qn s + (1 # 2)).
 
 (* The flag valid[r] = (C[r,0,0] != 0) is decided by the code through float
    tests `d == 0`; it is determined by exact arithmetic only when the bin has
    no weight at all (then it is False) or when the Hankel matrix is
    well-conditioned (then True); for N = 1 always.  With sqrt_sign only the
    first case and N = 1 can be decided. *)
-Definition has_weight (px : list (pixel Q)) : bool := negb (Qeq_bool (moment Qops 0 px) 0).
+Definition has_weight (px : list (pixel Q)) : bool := negb (feqb Qops (moment Qops 0 px) (f0 Qops)).
 Definition gvalid_ok (N : nat) (px : list (pixel Q)) (obs : bool) : bool :=
   if has_weight px then (if Nat.eqb N 1 then obs else true) else negb obs.
 
@@ -86,9 +103,10 @@ Definition gcheck (c : gcase) : bool :=
   | PValueError, GValueError => true
   | POk g, GOk o =>
     geom_matches (gc_meth c) g o
-    && list_all2 (fun r ob => gvalid_ok (g_N g) (pixels Qops sqrt_sign (gc_meth c) g
-                                              (QW Qops sqrt_sign g (gc_sin c) None) (fun _ _ => 0%Q) r) ob)
-                 (seq 0 (g_rmax g + 1)) (o_valid o)
+    && (let wq := QW Qops sqrt_sign g (gc_sin c) None in
+        list_all2 (fun r ob => gvalid_ok (g_N g) (pixels Qops sqrt_sign (gc_meth c) g wq
+                                                         (fun _ _ => f0 Qops) r) ob)
+                  (seq 0 (g_rmax g + 1)) (o_valid o))
   | _, _ => false
   end.
 
@@ -109,41 +127,40 @@ Definition Qmax (a b : Q) : Q := if Qle_bool a b then b else a.
 (* magnitudes used for the comparison tolerance: the same cofactor formulas
    with every term replaced by its absolute value *)
 Definition absmom (n : nat) (px : list (pixel Q)) : Q :=
-  sum Qops (map (fun t => let '(_, x, q) := t in Qabs q * Qabs (cpow Qops x n)) px).
+  sum Qops (map (fun t => let '(_, x, q) := t in fmul Qops (Qabs q) (Qabs (cpow Qops x n))) px).
 
-Definition mom (px : list (pixel Q)) (k : nat) : Q := moment Qops k px.
-Definition mabs (px : list (pixel Q)) (k : nat) : Q := Qabs (moment Qops k px).
-Definition pabs (px : list (pixel Q)) (k : nat) : Q := absmom k px.
-
-Definition tol_rows (N : nat) (px : list (pixel Q)) : option (Q * list Q) :=
-  (* (kd, [sum_j Mabs_ij pabs_j]) ; None when the matrix is singular *)
-  let m := mabs px in let pa := pabs px in let p := mom px in
+(* (kd, [sum_j Mabs_ij pabs_j]) ; None when the matrix is singular.
+   ms = moments 0..4, pa = absolute data moments 0..2 *)
+Definition tol_rows_of (N : nat) (ms pa : list Q) : option (Q * list Q) :=
+  let p (k : nat) := nth k ms 0 in
+  let m (k : nat) := Qabs (nth k ms 0) in
+  let a (k : nat) := nth k pa 0 in
+  let p0 := p 0%nat in let p1 := p 1%nat in let p2 := p 2%nat in let p3 := p 3%nat in let p4 := p 4%nat in
+  let m0 := m 0%nat in let m1 := m 1%nat in let m2 := m 2%nat in let m3 := m 3%nat in let m4 := m 4%nat in
+  let a0 := a 0%nat in let a1 := a 1%nat in let a2 := a 2%nat in
   match N with
-  | 1%nat => if Qeq_bool (mabs px 0) 0 then None else Some (0, [pabs px 0 / mabs px 0])
+  | 1%nat => if Qeq_bool m0 0 then None else Some (0, [a0 / m0])
   | 2%nat =>
-    let d := mom px 0 * mom px 2 - mom px 1 * mom px 1 in
+    let d := p0 * p2 - p1 * p1 in
     if Qeq_bool d 0 then None else
-    let T := mabs px 0 * mabs px 2 + mabs px 1 * mabs px 1 in
-    Some (T / Qabs d, [(mabs px 2 * pabs px 0 + mabs px 1 * pabs px 1) / Qabs d;
-                       (mabs px 1 * pabs px 0 + mabs px 0 * pabs px 1) / Qabs d])
+    Some ((m0 * m2 + m1 * m1) / Qabs d, [(m2 * a0 + m1 * a1) / Qabs d; (m1 * a0 + m0 * a1) / Qabs d])
   | 3%nat =>
-    let d := mom px 0 * (mom px 2 * mom px 4 - mom px 3 * mom px 3)
-             + mom px 1 * (mom px 2 * mom px 3 - mom px 1 * mom px 4)
-             + mom px 2 * (mom px 1 * mom px 3 - mom px 2 * mom px 2) in
+    let d := p0 * (p2 * p4 - p3 * p3) + p1 * (p2 * p3 - p1 * p4) + p2 * (p1 * p3 - p2 * p2) in
     if Qeq_bool d 0 then None else
-    let A00 := mabs px 2 * mabs px 4 + mabs px 3 * mabs px 3 in
-    let A01 := mabs px 2 * mabs px 3 + mabs px 1 * mabs px 4 in
-    let A02 := mabs px 1 * mabs px 3 + mabs px 2 * mabs px 2 in
-    let A11 := mabs px 0 * mabs px 4 + mabs px 2 * mabs px 2 in
-    let A12 := mabs px 1 * mabs px 2 + mabs px 0 * mabs px 3 in
-    let A22 := mabs px 0 * mabs px 2 + mabs px 1 * mabs px 1 in
-    let T := mabs px 0 * A00 + mabs px 1 * A01 + mabs px 2 * A02 in
-    Some (T / Qabs d,
-          [(A00 * pabs px 0 + A01 * pabs px 1 + A02 * pabs px 2) / Qabs d;
-           (A01 * pabs px 0 + A11 * pabs px 1 + A12 * pabs px 2) / Qabs d;
-           (A02 * pabs px 0 + A12 * pabs px 1 + A22 * pabs px 2) / Qabs d])
+    let A00 := m2 * m4 + m3 * m3 in let A01 := m2 * m3 + m1 * m4 in
+    let A02 := m1 * m3 + m2 * m2 in let A11 := m0 * m4 + m2 * m2 in
+    let A12 := m1 * m2 + m0 * m3 in let A22 := m0 * m2 + m1 * m1 in
+    Some ((m0 * A00 + m1 * A01 + m2 * A02) / Qabs d,
+          [(A00 * a0 + A01 * a1 + A02 * a2) / Qabs d;
+           (A01 * a0 + A11 * a1 + A12 * a2) / Qabs d;
+           (A02 * a0 + A12 * a1 + A22 * a2) / Qabs d])
   | _ => None
   end.
+
+Definition tol_rows (N : nat) (px : list (pixel Q)) : option (Q * list Q) :=
+  if Nat.ltb 3 N then None else
+  tol_rows_of N (map (fun k => Qred (moment Qops k px)) (seq 0 (2 * N - 1)))
+                (map (fun k => Qred (absmom k px)) (seq 0 N)).
 
 Definition kd_limit : Q := 1048576.
 
@@ -170,24 +187,27 @@ Definition valid_ok (N : nat) (px : list (pixel Q)) (obs : bool) : bool :=
 
 Definition column (M : list (list Q)) (r : nat) : list Q := map (fun row => nth r row 0) M.
 
+Definition fxW (c : vcase) := option_map fximg (vc_W c).
+
 Definition vresult (c : vcase) : bool * list nat :=
   match precalc (vc_h c) (vc_w c) (vc_origin c) (vc_rmax c) (vc_order c) (vc_odd c) with
   | POk g =>
     let sq := sqrtQ (vc_sqrt c) in
-    let X := match vc_W c with Some Wt => imul Qops Wt (vc_IM c) | None => vc_IM c end in
+    let IMx := fximg (vc_IM c) in
+    let X := match fxW c with Some Wt => imul Qops Wt IMx | None => IMx end in
     let ok :=
       geom_matches (vc_meth c) g (vc_obs c)
       && sqrt_tab_ok (vc_sqrt c) && sqrt_tab_covers (vc_sqrt c) g
       && wfb (vc_h c) (vc_w c) (vc_IM c)
       && match vc_W c with Some Wt => wfb (vc_h c) (vc_w c) Wt | None => true end
-      && img_close (fold_image 0 (fadd Qops) g X) (vc_Q c)
-      && list_all2 (fun r ob => valid_ok (g_N g) (pixels Qops sq (vc_meth c) g
-                                               (QW Qops sq g (vc_sin c) (vc_W c)) (fun _ _ => 0) r) ob)
-                   (seq 0 (g_rmax g + 1)%nat) (o_valid (vc_obs c)) in
-    (ok, map (fun r => cmp_radius (g_N g)
-                         (distr_pixels Qops sq (vc_meth c) g (vc_sin c) (vc_W c) (vc_IM c) r)
-                         (column (vc_cos c) r))
-             (seq 0 (g_rmax g + 1)%nat))
+      && img_close (fold_image (f0 Qops) (fadd Qops) g X) (vc_Q c) in
+    let wq := QW Qops sq g (vc_sin c) (fxW c) in
+    let dq := QD Qops sq g (vc_sin c) (fxW c) IMx in
+    let rs := map (fun r => let px := pixels Qops sq (vc_meth c) g wq dq r in
+                            (valid_ok (g_N g) px (nth r (o_valid (vc_obs c)) false),
+                             cmp_radius (g_N g) px (column (vc_cos c) r)))
+                  (seq 0 (g_rmax g + 1)%nat) in
+    (ok && Nat.eqb (List.length (o_valid (vc_obs c))) (g_rmax g + 1) && forallb fst rs, map snd rs)
   | _ => (false, [])
   end.
 
